@@ -100,7 +100,8 @@ package loader
 //@ func loadProjectFromFile
 //@   ensures fresh-project: result1 == nil ==> result0 != nil && fresh(result0)
 //@   ensures parsed-once: result1 == nil ==> unmarshals(boxed(result0)) == old(unmarshals(boxed(result0))) + 1
-//@   assigns unmarshals[*]
+//@   ensures unmentioned-unset: result1 == nil && !mentioned(boxed(result0), "log_length") ==> result0.LogLength == 0
+//@   assigns unmarshals[*], mentioned[*]
 //@ func copyWorkingDirToProcesses
 //@   flag trusted
 //@   assigns types.ProcessConfig.WorkingDir[*], heap(MapVal.Str.types.ProcessConfig)
